@@ -271,18 +271,44 @@ Proof.
 Qed.
 
 (** ** TCP/UDP frontends *)
+
+(** a TCP/UDP address belongs to the frontends of one cluster *)
+Definition OneOwner (ts : list tfront) : Prop :=
+  forall a b, In a ts -> In b ts -> t_addr a = t_addr b -> t_cluster a = t_cluster b.
+
+Lemma OneOwner_incl : forall l l', incl l l' -> OneOwner l' -> OneOwner l.
+Proof. intros l l' I H a b Ha Hb. apply H; now apply I. Qed.
+
+Lemma OneOwner_perm : forall l l', Permutation l l' -> OneOwner l -> OneOwner l'.
+Proof.
+  intros l l' P H. eapply OneOwner_incl; [|exact H]. intros x Hx. eapply Permutation_in; [apply Permutation_sym; exact P|exact Hx].
+Qed.
+
+Lemma bound_elsewhere_false : forall t l, OneOwner (l ++ [t]) -> bound_elsewhere t l = false.
+Proof.
+  intros t l H. unfold bound_elsewhere. destruct (existsb _ l) eqn:E; [|reflexivity].
+  apply existsb_exists in E as [y [Hy E]]. apply andb_true_iff in E as [E Ec]. apply andb_true_iff in E as [_ Ea].
+  apply bytes_eqb_eq in Ea. apply negb_true_iff in Ec.
+  assert (t_cluster y = t_cluster t).
+  { apply H; [apply in_or_app; now left|apply in_or_app; right; now left|exact Ea]. }
+  rewrite H0 in Ec. assert (bytes_eqb (t_cluster t) (t_cluster t) = true) by now apply bytes_eqb_eq. congruence.
+Qed.
+
 Lemma tfronts_phase : forall ts s,
-  NoDup (map tkey (s_tfronts s ++ ts)) ->
+  NoDup (map tkey (s_tfronts s ++ ts)) -> OneOwner (s_tfronts s ++ ts) ->
   apply_all (map RAddTFront ts) s = (set_t s (s_tfronts s ++ ts), repeat DOk (List.length ts)).
 Proof.
-  induction ts as [|t ts IH]; intros s H.
+  induction ts as [|t ts IH]; intros s H O.
   - cbn. rewrite app_nil_r. now destruct s.
   - cbn [map apply_all dispatch]. rewrite map_app in H. cbn [map] in H.
+    rewrite bound_elsewhere_false.
+    2:{ eapply OneOwner_incl; [|exact O]. intros x Hx. apply in_app_or in Hx as [Hx|[Hx|[]]]; apply in_or_app; [now left|right; now left]. }
     rewrite add_new_fresh by (eapply NoDup_app_notin; exact H).
     cbv beta iota. rewrite IH.
     + cbn [set_t s_listeners s_clusters s_fronts s_tfronts s_backends s_certs List.length repeat].
       now rewrite <- app_assoc.
     + cbn [set_t s_tfronts]. rewrite <- app_assoc. cbn [app]. rewrite map_app. exact H.
+    + cbn [set_t s_tfronts]. rewrite <- app_assoc. cbn [app]. exact O.
 Qed.
 
 (** ** backends *)
@@ -314,7 +340,8 @@ Definition fresh_for (s : state) (order : list ccfg) : Prop :=
   /\ NoDup (map fkey (s_fronts s ++ map fst (flat_map cc_hfronts order)))
   /\ NoDup (map tkey (s_tfronts s ++ flat_map cc_tfronts order))
   /\ NoDup (map bkey (s_backends s ++ flat_map cc_backs order))
-  /\ Forall (fun c => hc_valid (cc_clu c) = true) order.
+  /\ Forall (fun c => hc_valid (cc_clu c) = true) order
+  /\ OneOwner (s_tfronts s ++ flat_map cc_tfronts order).
 
 Lemma cluster_requests_length : forall c,
   List.length (cluster_requests c) =
@@ -328,7 +355,7 @@ Lemma clusters_phase : forall order s,
 Proof.
   induction order as [|c order IH]; intros s H.
   - cbn. unfold plus_clusters. cbn. rewrite !app_nil_r. now destruct s.
-  - destruct H as (Hc & Hf & Ht & Hb & Hv).
+  - destruct H as (Hc & Hf & Ht & Hb & Hv & Ho).
     cbn [flat_map map] in *. inversion Hv as [|? ? Hv1 Hv2]; subst.
     rewrite apply_all_app.
     (* the cluster's own requests *)
@@ -343,6 +370,7 @@ Proof.
     rewrite map_app in Ht. rewrite map_app in Ht.
     rewrite apply_all_app. rewrite tfronts_phase.
     2:{ cbn [set_k set_f s_tfronts]. rewrite map_app. rewrite app_assoc in Ht. eapply NoDup_app_l. exact Ht. }
+    2:{ cbn [set_k set_f s_tfronts]. eapply OneOwner_incl; [|exact Ho]. intros x Hx. rewrite app_assoc. apply in_or_app. now left. }
     cbv beta iota.
     rewrite map_app in Hb. rewrite map_app in Hb.
     rewrite backends_phase.
@@ -364,6 +392,7 @@ Proof.
       * rewrite <- app_assoc. rewrite !map_app. exact Ht.
       * rewrite <- app_assoc. rewrite !map_app. exact Hb.
       * exact Hv2.
+      * rewrite <- app_assoc. exact Ho.
 Qed.
 
 (** ** phase 3: activation *)
@@ -421,7 +450,19 @@ Definition KeysOk (cf : config) (order : list ccfg) : Prop :=
   /\ NoDup (map fkey (map fst (flat_map cc_hfronts order)))
   /\ NoDup (map tkey (flat_map cc_tfronts order))
   /\ NoDup (map bkey (flat_map cc_backs order))
-  /\ Forall (fun c => hc_valid (cc_clu c) = true) order.
+  /\ Forall (fun c => hc_valid (cc_clu c) = true) order
+  /\ OneOwner (flat_map cc_tfronts order).
+
+Definition one_owner (ts : list tfront) : bool :=
+  forallb (fun a => forallb (fun b => negb (bytes_eqb (t_addr a) (t_addr b)) || bytes_eqb (t_cluster a) (t_cluster b)) ts) ts.
+
+Lemma one_owner_OneOwner : forall ts, one_owner ts = true -> OneOwner ts.
+Proof.
+  intros ts H a b Ha Hb E. unfold one_owner in H. rewrite forallb_forall in H. specialize (H a Ha).
+  rewrite forallb_forall in H. specialize (H b Hb). apply orb_true_iff in H as [H|H].
+  - apply negb_true_iff in H. assert (bytes_eqb (t_addr a) (t_addr b) = true) by now apply bytes_eqb_eq. congruence.
+  - now apply bytes_eqb_eq.
+Qed.
 
 Definition keys_ok (cf : config) (order : list ccfg) : bool :=
   nodup_keys (map lkey (all_listeners cf))
@@ -429,24 +470,27 @@ Definition keys_ok (cf : config) (order : list ccfg) : bool :=
   && nodup_keys (map fkey (map fst (flat_map cc_hfronts order)))
   && nodup_keys (map tkey (flat_map cc_tfronts order))
   && nodup_keys (map bkey (flat_map cc_backs order))
-  && forallb (fun c => hc_valid (cc_clu c)) order.
+  && forallb (fun c => hc_valid (cc_clu c)) order
+  && one_owner (flat_map cc_tfronts order).
 
 Lemma keys_ok_KeysOk : forall cf order, keys_ok cf order = true -> KeysOk cf order.
 Proof.
   intros cf order H. unfold keys_ok in H. repeat (apply andb_true_iff in H as [H ?]).
   repeat split; try (apply nodup_keys_NoDup; assumption).
-  apply Forall_forall. intros c Hc. eapply forallb_forall in H0; eauto.
+  - apply Forall_forall. intros c Hc. eapply forallb_forall in H1; eauto.
+  - now apply one_owner_OneOwner.
 Qed.
 
 Lemma KeysOk_perm : forall cf o1 o2, Permutation o1 o2 -> KeysOk cf o1 -> KeysOk cf o2.
 Proof.
-  intros cf o1 o2 P (H1 & H2 & H3 & H4 & H5 & H6). repeat split.
+  intros cf o1 o2 P (H1 & H2 & H3 & H4 & H5 & H6 & H7). repeat split.
   - exact H1.
   - eapply Permutation_NoDup; [|exact H2]. do 2 apply Permutation_map. exact P.
   - eapply Permutation_NoDup; [|exact H3]. do 2 apply Permutation_map. now apply Permutation_flat_map.
   - eapply Permutation_NoDup; [|exact H4]. apply Permutation_map. now apply Permutation_flat_map.
   - eapply Permutation_NoDup; [|exact H5]. apply Permutation_map. now apply Permutation_flat_map.
   - eapply Permutation_Forall; eauto.
+  - eapply OneOwner_perm; [|exact H7]. now apply Permutation_flat_map.
 Qed.
 
 Lemma apply_fresh : forall cf order,
@@ -454,7 +498,7 @@ Lemma apply_fresh : forall cf order,
   apply_all (config_requests cf order) empty_state =
   (final_state cf order, repeat DOk (List.length (config_requests cf order))).
 Proof.
-  intros cf order (Hl & Hc & Hf & Ht & Hb & Hv).
+  intros cf order (Hl & Hc & Hf & Ht & Hb & Hv & Ho).
   unfold config_requests. rewrite apply_all_app.
   rewrite listeners_phase by exact Hl. cbv beta iota. rewrite apply_all_app.
   rewrite clusters_phase.
@@ -536,7 +580,7 @@ Lemma reload_absorbed : forall cf order order2,
   KeysOk cf order -> Permutation order2 order ->
   fst (apply_all (config_requests cf order2) (final_state cf order)) = final_state cf order.
 Proof.
-  intros cf order order2 (Hl & Hc & Hf & Ht & Hb & Hv) P.
+  intros cf order order2 (Hl & Hc & Hf & Ht & Hb & Hv & Ho) P.
   apply apply_all_absorbed. intros r Hr. unfold config_requests in Hr.
   rewrite !in_app_iff in Hr. destruct Hr as [Hr|[Hr|[Hr|Hr]]].
   - (* AddListener: Exists *)
@@ -562,6 +606,7 @@ Proof.
         apply (certs_fold_has (flat_map cc_hfronts order) [] (f, cert)); [exact Hall|exact Eh].
       * destruct Hr as [Hr|[]]; subst r. exact Hfront.
     + apply in_map_iff in Hr as [t [E Hin]]. subst r. cbn [dispatch final_state s_tfronts].
+      destruct (bound_elsewhere t (flat_map cc_tfronts order)); [reflexivity|].
       rewrite add_new_present; [reflexivity|]. apply in_map. apply in_flat_map; eauto.
     + apply in_map_iff in Hr as [b [E Hin]]. subst r. cbn [dispatch final_state s_backends].
       rewrite upsert_same; [reflexivity| apply in_flat_map; eauto | exact Hb].
